@@ -75,8 +75,18 @@ def run(ctx):
     jobs = []
     # bounded-exhaustive part: every small fragment against a slice of the small molecules
     per = ctx.n(5, 25)
+    multiring = ['C1CCC2CC2C1', 'C1CC2CCC12', 'C1CC12CCCC2', 'C1CC2CC1CC2', 'C1CCC2(CC1)CC2', 'c1ccc2CCCc2c1', 'C1CC2CCCC2C1', 'C1CC2C1C2', 'C1CCCC1', 'C1CCCCC1']
+    charged = ['CC(=O)[O-]', '[OH-]', '[CH3-]', 'C[O-]', '[NH4+]', '[CH3+]', 'C[NH3+]', '[O-][N+](=O)C', 'C[N+](C)(C)C', 'CC']
     for t in frags:
-        jobs.append({'op': 'match', 'text': t, 'smiles': rng.sample(mols, per), 'graphs': True, 'timeout': 30})
+        sm = rng.sample(mols, per)
+        if 'ring' in t:
+            sm += rng.sample(multiring, ctx.n(4, 10))     # atoms in several rings of different sizes
+        if t.startswith(('positive', 'negative', 'neutral')):
+            sm += charged
+        jobs.append({'op': 'match', 'text': t, 'smiles': sm, 'graphs': True, 'timeout': 30})
+    for mp, body in (('negative ', 'O- labeled a C labeled b single bond to a'), ('positive ', 'N+ labeled a'), ('neutral ', 'C labeled a'),
+                     ('negative ', 'C? labeled a'), ('positive ', '$? labeled a')):
+        jobs.append({'op': 'match', 'text': '%sfragment f{%s}' % (mp, body), 'smiles': charged, 'graphs': True, 'timeout': 30})
     # random larger fragments / molecules
     pool = [molgen.rnd_gas(rng) for _ in range(60)] + [molgen.rnd_surface(rng, 'Pt') for _ in range(30)]
     nrand = ctx.n(250, 6000)
